@@ -1022,8 +1022,8 @@ func isSecretSource(t *Term, forLog bool) bool {
 		return forLog
 	case strings.HasPrefix(op, "rnd!"):
 		return true
-	case strings.HasPrefix(op, "ret.generateRandomCode"), strings.HasPrefix(op, "ret.GenerateRecoveryCodes"), strings.HasPrefix(op, "ret.generateOTP"):
-		return true
+	case strings.HasPrefix(op, "ret.generateRandomCode.0"), strings.HasPrefix(op, "ret.GenerateRecoveryCodes.0"), strings.HasPrefix(op, "ret.generateOTP.0"):
+		return true // the plaintext result of a summarised generator
 	case op == "cs_get" && len(t.Args) == 2:
 		if k, ok := t.Args[1].StrVal(); ok {
 			switch k {
